@@ -68,11 +68,12 @@ def run_into(c, thorough):
     traces = [t for t, _ in res]
     crashes = [x for _, cr in res for x in cr]
     n0, d0, v0 = len(c.reports), c.drift, len(c.viols)
-    # IGS_MODEL_FIXES=D1,D2,D3: validate against the model of the engine AFTER the proposed repairs (proposed_fixes/C20-I*.md)
+    # the default model is the engine with the applied repairs D2 (step >= 1) and D3 (saturating arithmetic);
+    # IGS_MODEL_FIXES=D1,D2,D3,D4: validate against the model with other sets of repairs (proposed_fixes/C20-I*.md)
     fixes = [f for f in os.environ.get("IGS_MODEL_FIXES", "").split(",") if f]
     tcfg = "Trace_Igs.cfg"
     if fixes:
-        tcfg = _cfg_variant("Trace_Igs.cfg", "Trace_Igs_fixes.cfg", [("Fixes = {}", "Fixes = {" + ", ".join('"%s"' % f for f in fixes) + "}")])
+        tcfg = _cfg_variant("Trace_Igs.cfg", "Trace_Igs_fixes.cfg", [('Fixes = {"D2", "D3"}', "Fixes = {" + ", ".join('"%s"' % f for f in fixes) + "}")])
     c.validate(SPEC, "Trace_Igs", tcfg, traces, key, procs=SHARDS, timeout=3000)
     by_case = {(os.path.basename(t), str(cr["case"])): cr for (t, crs) in res for cr in crs}
     for v in c.viols[v0:]:
